@@ -252,6 +252,25 @@ func ruleBPrim(w *World, r *Report) {
 		case "substring-before", "substring-after":
 			// the flag argument distinguishes them: substring-after passes true exactly for its own name
 		}
+		// the value returned is the primitive's result (or a constant), on every return
+		if prod, ok := resultProducer[name]; ok {
+			if prod == "@truth" {
+				prod = truth
+			} else if prod == "@number" {
+				prod = number
+			} else if prod == "@string" {
+				prod = str
+			}
+			for _, b := range cl.Blocks {
+				ret, okr := normalReturn(b)
+				if !okr || len(ret.Results) != 1 {
+					continue
+				}
+				if !w.resultFrom(retVal(ret, 0), prod, map[ssa.Value]bool{}) {
+					probs = append(probs, fmt.Sprintf("returns (at %s) a value that is neither a constant nor the result of %s: a second way of computing the answer bypasses the primitive", w.instrPos(ret), strings.TrimPrefix(prod, pkgp)))
+				}
+			}
+		}
 		pos := w.pos(cl.Pos())
 		if len(probs) == 0 {
 			r.ok("B-PRIM", name, pos, fmt.Sprintf("%s() => %s", name, f.Name()))
@@ -837,4 +856,57 @@ func (w *World) edgeCompatible(fn *ssa.Function, pred, blk, site *ssa.BasicBlock
 		}
 	}
 	return true
+}
+
+
+// resultProducer: the callee whose result is what the function returns.
+var resultProducer = map[string]string{
+	"contains": "strings.Contains", "starts-with": "strings.HasPrefix", "ends-with": "strings.HasSuffix",
+	"matches": "(*regexp.Regexp).MatchString", "replace": "(*regexp.Regexp).ReplaceAllString",
+	"lower-case": "strings.ToLower", "translate": "(*strings.Replacer).Replace", "string-join": "strings.Join",
+	"floor": "math.Floor", "ceiling": "math.Ceil", "boolean": "@truth", "number": "@number", "string": "@string",
+}
+
+// resultFrom: v is a constant, the result of the producer, or (string-join)
+// the string operand passed through; through MakeInterface / phis.
+func (w *World) resultFrom(v ssa.Value, prod string, seen map[ssa.Value]bool) bool {
+	v = strip(v)
+	if seen[v] {
+		return true
+	}
+	seen[v] = true
+	switch x := v.(type) {
+	case *ssa.Const:
+		return true
+	case *ssa.MakeInterface:
+		return w.resultFrom(x.X, prod, seen)
+	case *ssa.Phi:
+		for _, e := range x.Edges {
+			if !w.resultFrom(e, prod, seen) {
+				return false
+			}
+		}
+		return true
+	case *ssa.Call:
+		if f := x.Call.StaticCallee(); f != nil && f.String() == prod {
+			return true
+		}
+	case *ssa.Extract:
+		// string-join of a plain string returns it unchanged
+		if ta, ok := x.Tuple.(*ssa.TypeAssert); ok && x.Index == 0 && prod == "strings.Join" {
+			if b, ok := ta.AssertedType.(*types.Basic); ok && b.Kind() == types.String {
+				return true
+			}
+		}
+	case *ssa.UnOp:
+		if a := cellOf(x.X); a != nil {
+			for _, st := range cellStores(a) {
+				if !w.resultFrom(st.Val, prod, seen) {
+					return false
+				}
+			}
+			return true
+		}
+	}
+	return false
 }
